@@ -237,6 +237,104 @@ theorem new_subscription_receives (pre ops : List Op) (chans : List String) (fn 
   obtain ⟨s', h1, _, h3, h4⟩ := exactly_once_in_order _ hinv ops _ _ hget
   exact ⟨s', h1, h3, by simpa using h4⟩
 
+/-! ### subscription ids -/
+
+/-- ids in the table are pairwise distinct and never exceed the counter -/
+structure IdInv (t : Table) : Prop where
+  distinct : t.subs.Pairwise (fun a b => a.id ≠ b.id)
+  bound : ∀ s ∈ t.subs, s.id ≤ t.cnt
+
+private theorem map_keeps_ids (l : List Sub) (f : Sub → Sub) (hf : ∀ s, (f s).id = s.id) :
+    (l.map f).map (·.id) = l.map (·.id) := by
+  induction l with
+  | nil => rfl
+  | cons a r ih => simp [hf, ih]
+
+private theorem pairwise_of_ids (l l' : List Sub) (h : l'.map (·.id) = l.map (·.id))
+    (hp : l.Pairwise (fun a b => a.id ≠ b.id)) : l'.Pairwise (fun a b => a.id ≠ b.id) := by
+  have h1 : (l.map (·.id)).Pairwise (· ≠ ·) := by simpa [List.pairwise_map] using hp
+  rw [← h] at h1
+  simpa [List.pairwise_map] using h1
+
+private theorem idinv_upd (t : Table) (h : IdInv t) (f : Sub → Sub) (hf : ∀ s, (f s).id = s.id) : IdInv (upd t f) := by
+  constructor
+  · exact pairwise_of_ids t.subs _ (map_keeps_ids t.subs f hf) h.distinct
+  · intro s hs
+    simp only [upd, List.mem_map] at hs
+    obtain ⟨s0, hs0, rfl⟩ := hs
+    rw [hf]; exact h.bound s0 hs0
+
+private theorem idinv_step (t : Table) (h : IdInv t) (op : Op) : IdInv (step t op) := by
+  cases op with
+  | subscribe chans fn =>
+    simp only [step]
+    split
+    · constructor
+      · simp only [List.pairwise_append, List.pairwise_cons, List.Pairwise.nil, List.mem_singleton]
+        refine ⟨h.distinct, ⟨by simp, trivial⟩, ?_⟩
+        intro a ha b hb
+        subst hb
+        have := h.bound a ha
+        show a.id ≠ t.cnt + 1
+        omega
+      · intro s hs
+        simp only [List.mem_append, List.mem_singleton] at hs
+        rcases hs with hs | hs
+        · have := h.bound s hs; show s.id ≤ t.cnt + 1; omega
+        · subst hs; exact Nat.le_refl _
+    · exact ⟨h.distinct, fun s hs => Nat.le_succ_of_le (h.bound s hs)⟩
+  | publish ch m =>
+    simp only [step]; split
+    · exact idinv_upd t h _ (fun s => by split <;> rfl)
+    · exact h
+  | confirm n =>
+    simp only [step]; split
+    · exact idinv_upd t h _ (fun s => by split <;> rfl)
+    · exact h
+  | unsubscribe n =>
+    simp only [step]; split
+    · exact idinv_upd t h _ (fun s => by
+        split
+        · split <;> rfl
+        · rfl)
+    · exact h
+  | cancel id =>
+    simp only [step]; split
+    · exact idinv_upd t h _ (fun s => by split <;> rfl)
+    · exact h
+  | close =>
+    simp only [step]
+    have := idinv_upd t h (fun s => if s.active then s.remove else s) (fun s => by split <;> rfl)
+    exact ⟨this.distinct, this.bound⟩
+
+/-- **live_ids_distinct.** For every op sequence, the ids `Subscribe` handed out are pairwise
+    distinct (among live subscriptions, and even among all subscriptions ever made): the counter
+    that generates them is never moved back, whatever ends in between. -/
+theorem live_ids_distinct (ops : List Op) : (run {} ops).subs.Pairwise (fun a b => a.id ≠ b.id) := by
+  have : ∀ (t : Table), IdInv t → IdInv (run t ops) := by
+    induction ops with
+    | nil => exact fun _ h => h
+    | cons op r ih => exact fun t h => ih _ (idinv_step t h op)
+  exact (this {} ⟨by simp, by simp⟩).distinct
+
+/-- **remove_only_affects_own_subscription.** Ending one subscription through its cancel func
+    changes that subscription only: every other entry of the table (other id) is left exactly as it
+    was — same channels, same buffer, still open if it was. -/
+theorem remove_only_affects_own_subscription (t : Table) (id i : Nat) (s : Sub) (hs : t.subs[i]? = some s)
+    (hne : s.id ≠ id) : (step t (.cancel id)).subs[i]? = some s := by
+  simp only [step]
+  split
+  · simp [upd, hs, hne]
+  · exact hs
+
+/-- and an unsubscribe notification ends exactly the live subscriptions that list its channel -/
+theorem unsubscribe_only_affects_listed (t : Table) (n : Note) (i : Nat) (s : Sub) (hs : t.subs[i]? = some s)
+    (hne : n.channel ∉ s.chans) : (step t (.unsubscribe n)).subs[i]? = some s := by
+  simp only [step]
+  split
+  · simp [upd, hs, hne]
+  · exact hs
+
 /-- **no_foreign_messages.** Everything a subscription receives was published under one of its
     own channels (patterns / shard channels). -/
 theorem no_foreign_messages (id : Nat) (chans : List String) (ops : List Op) (m : Msg) (hm : m ∈ expect id chans ops) :
